@@ -17,14 +17,14 @@ namespace C15
 /-- does the op call `Write` at all (a zero-length `Write` counts; an empty reader does not) -/
 def Op.makesWrite : Op → Bool
   | .write _ => true
-  | .stream _ cs => cs.any (fun c => !c.isEmpty)
+  | .stream _ cs _ => cs.any (fun c => !c.isEmpty)
   | .streamWT _ d => !d.isEmpty
   | _ => false
 
 /-- the bytes an op passes to `Write` -/
 def Op.bytes : Op → Bytes
   | .write b => b
-  | .stream _ cs => concatAll cs
+  | .stream _ cs _ => concatAll cs
   | .streamWT _ d => d
   | _ => []
 
@@ -41,7 +41,7 @@ def chosen : List Op → Nat
   | .writeHeader c :: _ => c
   | .write _ :: _ => 200
   | .flush :: _ => 200
-  | .stream c _ :: _ => c
+  | .stream c _ _ :: _ => c
   | .streamWT c _ :: _ => c
 
 /-- what the handler had written at each of its `Flush` calls (`pre` = written before `ops`) -/
@@ -53,7 +53,7 @@ def flushPoints (pre : Bytes) : List Op → List Bytes
 /-- the counts a correct writer reports -/
 def expectedRet : Op → Ret
   | .write b => .wrote b.length
-  | .stream _ cs => .streamed ((cs.filter (fun c => !c.isEmpty)).map List.length) 0
+  | .stream _ cs fails => .streamed ((cs.filter (fun c => !c.isEmpty)).map List.length) (if fails then 1 else 0)
   | .streamWT _ d => .streamed (if d.isEmpty then [] else [d.length]) 0
   | _ => .none
 
@@ -652,7 +652,7 @@ def Ghost.step (g : Ghost) : Op → Ghost
   | .writeHeader c => g.choose c
   | .write b => g.wrote b
   | .flush => g.flushed
-  | .stream c cs => (cs.filter (fun c => !c.isEmpty)).foldl Ghost.wrote (g.choose c)
+  | .stream c cs _ => (cs.filter (fun c => !c.isEmpty)).foldl Ghost.wrote (g.choose c)
   | .streamWT c d => if d.isEmpty then g.choose c else (g.choose c).wrote d
 
 def Ghost.run (g : Ghost) : List Op → Ghost
@@ -705,7 +705,7 @@ theorem step_inv (m : Nat) (g : Ghost) (s : St) (op : Op) (h : Inv m g s) :
     obtain ⟨h1, h2⟩ := respWrite_inv m g s b h
     exact ⟨h1, by simp [step, h2, expectedRet]⟩
   | flush => exact ⟨respFlush_inv m g s h, rfl⟩
-  | stream c cs =>
+  | stream c cs fl =>
     obtain ⟨h1, h2⟩ := copyChunks_inv m (cs.filter (fun c => !c.isEmpty)) (g.choose c) _
       (respWriteHeader_inv m g s c h)
     simp only [step, Ghost.step, expectedRet]
@@ -791,7 +791,7 @@ theorem fold_ch (cs : List Bytes) : ∀ (g : Ghost) (x : Nat), g.ch = some x →
 
 theorem step_W (g : Ghost) (op : Op) : (g.step op).W = g.W ++ op.bytes := by
   cases op with
-  | stream c cs => simp [Ghost.step, fold_W, concatAll_filter, Op.bytes]
+  | stream c cs fl => simp [Ghost.step, fold_W, concatAll_filter, Op.bytes]
   | streamWT c d =>
     cases d with
     | nil => simp [Ghost.step, Op.bytes]
@@ -806,7 +806,7 @@ theorem run_W (ops : List Op) : ∀ g : Ghost, (g.run ops).W = g.W ++ written op
 theorem step_F (g : Ghost) (op : Op) (h : op ≠ .flush) : (g.step op).F = g.F := by
   cases op with
   | flush => exact absurd rfl h
-  | stream c cs => simp [Ghost.step, fold_F]
+  | stream c cs fl => simp [Ghost.step, fold_F]
   | streamWT c d =>
     cases d with
     | nil => simp [Ghost.step]
@@ -829,7 +829,7 @@ theorem step_ch_some (g : Ghost) (op : Op) (x : Nat) (h : g.ch = some x) : (g.st
   | writeHeader c => exact Ghost.choose_ch_some g c x h
   | write b => rw [Ghost.step, Ghost.wrote_ch]; exact Ghost.choose_ch_some g 200 x h
   | flush => rw [Ghost.step, Ghost.flushed_ch]; exact Ghost.choose_ch_some g 200 x h
-  | stream c cs => exact fold_ch _ _ x (Ghost.choose_ch_some g c x h)
+  | stream c cs fl => exact fold_ch _ _ x (Ghost.choose_ch_some g c x h)
   | streamWT c d =>
     simp only [Ghost.step]
     split
@@ -858,8 +858,8 @@ theorem run_ch_none (ops : List Op) : ∀ g : Ghost, g.ch = none → (g.run ops)
       have : (g.step .flush).ch = some 200 := by
         rw [Ghost.step, Ghost.flushed_ch]; exact Ghost.choose_ch_none g 200 h
       simp [Ghost.run, chosen, run_ch_some ops _ 200 this]
-    | stream c cs =>
-      have : (g.step (.stream c cs)).ch = some c := fold_ch _ _ c (Ghost.choose_ch_none g c h)
+    | stream c cs fl =>
+      have : (g.step (.stream c cs fl)).ch = some c := fold_ch _ _ c (Ghost.choose_ch_none g c h)
       simp [Ghost.run, chosen, run_ch_some ops _ c this]
     | streamWT c d =>
       have : (g.step (.streamWT c d)).ch = some c := by
@@ -880,7 +880,7 @@ theorem any_nonEmpty (cs : List Bytes) :
 
 theorem step_wr (g : Ghost) (op : Op) : (g.step op).wr = (g.wr || op.makesWrite) := by
   cases op with
-  | stream c cs => simp [Ghost.step, fold_wr, Op.makesWrite, any_nonEmpty]
+  | stream c cs fl => simp [Ghost.step, fold_wr, Op.makesWrite, any_nonEmpty]
   | streamWT c d =>
     cases d with
     | nil => simp [Ghost.step, Op.makesWrite]
@@ -899,7 +899,7 @@ theorem step_late_started (g : Ghost) (op : Op) (h : ∀ n, op ≠ .setLen n) :
     (g.step op).late = g.late ∧ (g.step op).started = true := by
   cases op with
   | setLen n => exact absurd rfl (h n)
-  | stream c cs => exact ⟨by simp [Ghost.step, fold_late], fold_started _ _ rfl⟩
+  | stream c cs fl => exact ⟨by simp [Ghost.step, fold_late], fold_started _ _ rfl⟩
   | streamWT c d =>
     cases d with
     | nil => simp [Ghost.step]
@@ -936,8 +936,8 @@ theorem run_late (ops : List Op) : ∀ g : Ghost, g.started = false → g.late =
     | flush =>
       obtain ⟨h1, h2⟩ := step_late_started g .flush (by intro n; simp)
       rw [Ghost.run, run_late_started ops _ h2 hh, h1, hl]
-    | stream c cs =>
-      obtain ⟨h1, h2⟩ := step_late_started g (.stream c cs) (by intro n; simp)
+    | stream c cs fl =>
+      obtain ⟨h1, h2⟩ := step_late_started g (.stream c cs fl) (by intro n; simp)
       rw [Ghost.run, run_late_started ops _ h2 hh, h1, hl]
     | streamWT c d =>
       obtain ⟨h1, h2⟩ := step_late_started g (.streamWT c d) (by intro n; simp)
@@ -953,7 +953,7 @@ theorem step_ok (g : Ghost) (op : Op) (h : g.ok) : (g.step op).ok := by
   | writeHeader c => exact Ghost.choose_ch_ne g c
   | write b => rw [Ghost.step, Ghost.wrote_ch]; exact Ghost.choose_ch_ne g 200
   | flush => rw [Ghost.step, Ghost.flushed_ch]; exact Ghost.choose_ch_ne g 200
-  | stream c cs =>
+  | stream c cs fl =>
     cases hc : (g.choose c).ch with
     | none => exact absurd hc (Ghost.choose_ch_ne g c)
     | some x => simp [Ghost.step, fold_ch _ _ x hc]
@@ -1154,7 +1154,7 @@ theorem step_grw_none (s : St) (op : Op) (h : s.grw = none) : (step s op).1.grw 
       · exact h
       · exact respWriteHeader_grw_none s _ h
     simp only [step, respFlush, writerFlush, h']
-  | stream c cs => exact copyChunks_grw_none _ _ (respWriteHeader_grw_none s c h)
+  | stream c cs fl => exact copyChunks_grw_none _ _ (respWriteHeader_grw_none s c h)
   | streamWT c d =>
     simp only [step]
     split
@@ -1392,7 +1392,7 @@ theorem step_grw_some (s : St) (op : Op) (h : s.grw.isSome = true) : (step s op)
     cases hg : s'.grw with
     | none => rw [hg] at h'; exact Bool.noConfusion h'
     | some w => simp [grwFlush]
-  | stream c cs => exact copyChunks_grw_some _ _ (respWriteHeader_grw_some s c h)
+  | stream c cs fl => exact copyChunks_grw_some _ _ (respWriteHeader_grw_some s c h)
   | streamWT c d =>
     simp only [step]
     split
@@ -1609,5 +1609,61 @@ example : (decompressReq [1, 1] ⟨"gzip".toList, .gzip [[1,2],[3]] false, some 
 example : (serveNested 2 [] ⟨⟨"gzip".toList, [.write [1], .write [2,3]]⟩, 1, some ⟨"gzip".toList, [.write [7,7,7]]⟩⟩).1.map
     (fun r => canon r.raw.body) = [.gzip [1,2,3] true false, .gzip [7,7,7] true false] := by decide
 
+/-! ## readers that fail (round 8)
+
+`Context.Stream` is `io.Copy`: the bytes a reader hands out TOGETHER with `io.EOF`, or together with
+another error, are written before the error is looked at.  In the model such a reader is the same
+list of chunks with the flag `fails`; the two theorems say that the flag can only be seen in the
+result the handler gets back. -/
+
+/-- the same program with readers that end cleanly -/
+def Op.calm : Op → Op
+  | .stream c cs _ => .stream c cs false
+  | op => op
+
+theorem step_calm (s : St) (op : Op) : (step s op.calm).1 = (step s op).1 := by
+  cases op <;> simp [Op.calm, step]
+
+theorem runProg_calm (ops : List Op) : ∀ s : St, (runProg s (ops.map Op.calm)).1 = (runProg s ops).1 := by
+  induction ops with
+  | nil => intro s; rfl
+  | cons op ops ih =>
+    intro s
+    simp only [List.map_cons, runProg]
+    rw [step_calm, ih]
+
+theorem written_calm (ops : List Op) : written (ops.map Op.calm) = written ops := by
+  induction ops with
+  | nil => rfl
+  | cons op ops ih =>
+    simp only [List.map_cons, written, ih]
+    cases op <;> rfl
+
+/-- **C15_reader_error_invisible** — whether the readers a handler streams from end with `io.EOF` or
+    with an error (and whether their last bytes come together with it) changes nothing on the wire:
+    status, headers, body and every Flush snapshot are those of the same chunks from readers that end
+    cleanly — in particular the client still recovers every byte the readers handed out
+    (`C15_roundtrip`: `written` counts all chunks of a failing stream). -/
+theorem C15_reader_error_invisible (m : Nat) (pool : Pool) (rq : Req) :
+    (serve m pool ⟨rq.acceptEncoding, rq.prog.map Op.calm⟩).1.raw = (serve m pool rq).1.raw := by
+  unfold serve
+  simp only [runProg_calm]
+  split
+  · split <;> rfl
+  · rfl
+
+/-- **C15_reader_error_reported** — a `Stream` from a failing reader writes every chunk with its own
+    length and then reports the failure (result 1, never a panic), wherever it stands in the program. -/
+theorem C15_reader_error_reported (m : Nat) (pool : Pool) (ae : List Char) (before after : List Op)
+    (code : Nat) (cs : List Bytes) :
+    (serve m pool ⟨ae, before ++ .stream code cs true :: after⟩).1.rets[before.length]? =
+      some (.streamed ((cs.filter (fun c => !c.isEmpty)).map List.length) 1) := by
+  rw [C15_write_count]
+  simp [expectedRet]
+
+-- non-vacuity: three chunks (one empty), the reader fails behind the last one; threshold crossed by the second chunk
+example : (serve 4 {} ⟨"gzip".toList, [.stream 201 [[1,2],[],[3,4,5]] true]⟩).1.rets = [.streamed [2,3] 1] := by decide
+example : canon (serve 4 {} ⟨"gzip".toList, [.stream 201 [[1,2],[],[3,4,5]] true]⟩).1.raw.body = .gzip [1,2,3,4,5] true false := by decide
+example : (serve 4 {} ⟨"".toList, [.stream 201 [[1,2]] true, .write [9]]⟩).1.raw.body = [.raw [1,2], .raw [9]] := by decide
 
 end C15
